@@ -159,6 +159,9 @@ def run(res, ctx):
         positions = [("comment", "x = 1  # note {c}hidden\ny = 2\n", 1), ("string", "x = 1\ns = 'ab{c}cd'\n", 2), ("identifier-adjacent", "x = 1\nvalue = call({c!s}) if False else 0\n".replace("{c!s}", "'{c}'"), 2),
                      ("first-line", "# {c}\nx = 1\n", 1), ("last-line-no-newline", "x = 1\n# end {c}", 2), ("docstring", '"""doc {c} text"""\nx = 1\n', 1),
                      ("two-chars-one-line", "x = 1  # ⁩ then {c}\n", 1),
+                     # the character is the FIRST character of a physical line (only possible on a continuation line of a multi-line string): column 1 is a column
+                     # (seeded change C19-m14 tested `position > 0` after switching from index() to find())
+                     ("line-start-in-multiline-string", 's = """first\n{c}second\n"""\nx = 1\n', 2), ("line-start-then-more", "t = \'\'\'a\n{c}b {c}c\n\'\'\'\n", 2),
                      # characters str.splitlines() treats as line ends but Python's parser does not (seeded change C10-m2)
                      ("after-formfeed-line", "x = 1\n\x0c\ny = 2  # {c}\n", 3), ("after-u2028-in-string", "s = 'a\u2028b'\ny = 2  # {c}\n", 2),
                      ("after-vt-fs-nel-u2029", "s = 'a\x0bb\x1cc\x85d\u2029e\x1d\x1e'\n# {c}\n", 2), ("formfeed-same-line", "\x0cx = 1  # {c}\n", 1),
